@@ -145,7 +145,7 @@ func init() {
 				return c07Check(r, gen.SynBody(r, r.Range(1, 8)), "random")
 			}},
 		},
-		Floors: []core.Floor{{Key: "texts_parsed", Quick: 100000, Thor: 10000000}, {Key: "layout_variants", Quick: 80000, Thor: 8000000}, {Key: "tag:node:", Quick: 19, Thor: 19}, {Key: "nontrivial", Quick: 15000, Thor: 1500000}},
+		Floors: []core.Floor{{Key: "texts_parsed", Quick: 100000, Thor: 5000000}, {Key: "layout_variants", Quick: 80000, Thor: 4000000}, {Key: "tag:node:", Quick: 19, Thor: 19}, {Key: "nontrivial", Quick: 15000, Thor: 900000}},
 		Extra: func(a *core.Agg, cov map[string]any) {
 			cov["exhaustive_subspaces"] = "the small family is enumerated completely in both tiers"
 		},
